@@ -1,7 +1,9 @@
-(* C13 property theorems.  Nothing but statements, `exact`, and Print Assumptions. *)
+(* C13 property theorems.  Nothing but statements, `exact`, and Print Assumptions.
+   Models: Escape.v (encode/decode), Types.v (deserialize), Serialize.v (serialize of every
+   type, ConfigSchema/MapConfigSchema.serialize, config._format). *)
 From Coq Require Import ZArith List Bool.
-From Common Require Import Str.
-From Config Require Import Escape Proofs_Escape.
+From Common Require Import Res Str.
+From Config Require Import Escape Proofs_Escape Types Schema Spec_C12 Serialize Proofs_Serialize.
 Import ListNotations.
 Open Scope Z_scope.
 
@@ -17,3 +19,88 @@ Print Assumptions C13_encode_single_line.
 Theorem C13_sequential_decoder_refuted : exists s, decode_sequential (encode s) <> s.
 Proof. exact decode_sequential_refuted. Qed.
 Print Assumptions C13_sequential_decoder_refuted.
+
+(* str.strip() (as transcribed) is idempotent: accepted strings stay accepted. *)
+Theorem C13_strip_idempotent : forall s : str, strip (strip s) = strip s.
+Proof. exact strip_idem. Qed.
+Print Assumptions C13_strip_idempotent.
+
+(* T2 (scalar types: String, Secret, Integer/Port, Float, Boolean, LogColor, LogLevel,
+   Path): every value in the range of deserialize serializes to a text that deserializes
+   to the same value -- for all raw texts, all oracle behaviours satisfying
+   [str_oracles_ok] (int(str(z)) = z, float(repr(f)) = f, no backslash in either).
+   Strings may contain backslashes, tabs and newlines.  Excluded: Boolean None (known
+   finding, refuted below).  Hostname, Pair and List are covered by correspondence and
+   the type_roundtrip monitor only: hence _partial. *)
+Theorem C13_type_roundtrip_partial :
+  forall so o, str_oracles_ok so o ->
+  forall t raw v,
+    scalar t = true ->
+    deserialize o t raw = Ok v ->
+    (forall opt, t = TBoolean opt -> v <> VNone) ->
+    exists s, serialize so o false t v = SStr s /\ deserialize o t s = Ok v.
+Proof. exact scalar_roundtrip_lemma. Qed.
+Print Assumptions C13_type_roundtrip_partial.
+
+Theorem C13_boolean_none_roundtrip_refuted :
+  exists so o raw s, deserialize o (TBoolean true) raw = Ok VNone
+    /\ serialize so o false (TBoolean true) VNone = SStr s
+    /\ deserialize o (TBoolean true) s <> Ok VNone.
+Proof. exact boolean_none_roundtrip_refuted. Qed.
+Print Assumptions C13_boolean_none_roundtrip_refuted.
+
+(* The code before fix cacbe5e: Path.serialize did not escape. *)
+Theorem C13_prefix_path_roundtrip_refuted :
+  exists raw v s, deserialize_prefix id_oracles (TPath false) raw = Ok v
+    /\ serialize_prefix dummy_so id_oracles false (TPath false) v = SStr s
+    /\ deserialize_prefix id_oracles (TPath false) s <> Ok v.
+Proof. exact prefix_path_roundtrip_refuted. Qed.
+Print Assumptions C13_prefix_path_roundtrip_refuted.
+
+(* T3, per value: two values that differ only in the values of set secrets, at any nesting
+   in Pair/List, serialize identically when display is on. *)
+Theorem C13_mask_noninterference_value :
+  forall so o t v1 v2,
+    sec_rel t v1 v2 -> serialize so o true t v1 = serialize so o true t v2.
+Proof. exact mask_noninterference_type. Qed.
+Print Assumptions C13_mask_noninterference_value.
+
+(* T3, whole config: for every schema list and every two configs related key by key by
+   [sec_rel], config.format(display=True) (and the disabled rendering) are identical. *)
+Theorem C13_mask_noninterference :
+  forall so o disable schemas c1 c2,
+    config_rel schemas c1 c2 ->
+    format_gen so o true disable schemas c1 = format_gen so o true disable schemas c2.
+Proof. exact mask_noninterference_format. Qed.
+Print Assumptions C13_mask_noninterference.
+
+Example C13_mask_hypothesis_satisfiable :
+  config_rel ex_sec_schemas (ex_cfg [49] [50]) (ex_cfg [51; 52] [53]).
+Proof. exact ex_config_rel. Qed.
+Print Assumptions C13_mask_hypothesis_satisfiable.
+
+(* T4: with display off a secret's serialization decodes to the secret exactly. *)
+Theorem C13_secret_preserved :
+  forall so o opt tr v s,
+    (v = VStr s \/ exists t, v = VTStr s t) ->
+    exists e, serialize so o false (TSecret opt tr) v = SStr e /\ decode e = s.
+Proof. exact secret_preserved_lemma. Qed.
+Print Assumptions C13_secret_preserved.
+
+(* T5, below the INI syntax: the text _format writes for a (scalar) key validates, as that
+   key's raw value, to the same entry.  The INI transport itself (configparser reading
+   what _format wrote) is covered by the format_load_roundtrip monitor only. *)
+Theorem C13_format_key_roundtrip_partial :
+  forall so o, str_oracles_ok so o ->
+  forall keys k t raw_k v,
+    assoc k keys = Some t -> scalar t = true ->
+    entry o keys (Some raw_k) k = (Some v, None) ->
+    (forall opt, t = TBoolean opt -> v <> VNone) ->
+    exists s, serialize so o false t v = SStr s /\ entry o keys (Some s) k = (Some v, None).
+Proof. exact format_key_roundtrip_lemma. Qed.
+Print Assumptions C13_format_key_roundtrip_partial.
+
+(* The oracle hypotheses are satisfiable. *)
+Example C13_oracle_hypotheses_satisfiable : str_oracles_ok law_so law_o.
+Proof. exact law_oracles_ok. Qed.
+Print Assumptions C13_oracle_hypotheses_satisfiable.
